@@ -1883,6 +1883,11 @@ def k_output_frame(E, tier):
         v = vec_of(ex, st, a[0])
         return sym.Scalar(("bv", 64, False), st.cells["vec:" + v.vkey][0])
 
+    def m_is_ascii(ex, st, c, a, d):
+        # only a scan of the written bytes themselves tells whether the output is ASCII
+        x = _full(ex, st, a[0])
+        return A if x is written else None
+
     def m_strlen(ex, st, c, a, d):
         s = _full(ex, st, a[0])
         return sym.Scalar(("bv", 64, False), bv64(len(_rust_unescape(s.s).encode("utf-8")))) if isinstance(s, sym.ConstStr) else None
@@ -1890,7 +1895,7 @@ def k_output_frame(E, tier):
     models = [(r"^CssBuf::new$", lambda ex, st, c, a, d: sym.Opaque("CssBuf", "cssbuf", ctx)), (r" as IntoIterator>::into_iter$", lambda ex, st, c, a, d: a[0]),
               (r" as Iterator>::next$", lambda ex, st, c, a, d: sym.Agg(d, "None", {}, 0)), (r"^CssBuf::take$", m_take),
               (r"Format::is_compressed$", lambda ex, st, c, a, d: Cflag), (r"^<Vec<u8> as Deref>::deref$", lambda ex, st, c, a, d: a[0]),
-              (r"is_ascii$", lambda ex, st, c, a, d: A), (r"^core::str::<impl str>::len$", m_strlen), (r"^Vec::<u8>::len$", m_len),
+              (r"^core::slice::ascii::<impl \[u8\]>::is_ascii$", m_is_ascii), (r"^core::str::<impl str>::len$", m_strlen), (r"^Vec::<u8>::len$", m_len),
               (r"^Vec::<u8>::with_capacity$", m_with_capacity), (r"^core::str::<impl str>::as_bytes$", lambda ex, st, c, a, d: a[0]),
               (r"^Vec::<u8>::extend_from_slice$", m_extend_from_slice), (r"^<Vec<u8> as Extend<u8>>::extend::<Vec<u8>>$", m_extend),
               (r"^core::slice::<impl \[u8\]>::last$", m_last), (r"^<Option<&u8> as PartialEq>::eq$", m_opt_eq), (r"^Vec::<u8>::pop$", m_pop),
